@@ -58,102 +58,63 @@ def c06a(ctx, tu):
 
 
 def c06b(ctx, tu):
-    """~sequence_type: while not empty: take the front, list it, unlink it; one non-fatal report iff
-    at least one was listed."""
-    def classify(fn, ev, env):
-        k = ev["e"]
-        if k == "decl" and any(lib.tree_name(c) == "trompeloeil::list::begin" for c in lib.tree_calls(ev.get("init"))):
-            return ("sym", "begin")     # (C++14: wrapped in an elidable iterator copy)
-        # boolean locals are tracked so that `if (touched)` is correlated with the loop having run
-        if k == "decl" and isinstance(ev.get("init"), list) and ev["init"][:1] == ["bool"]:
-            return ("sym", ("setvar", ev["var"], ev["init"][1]))
-        if k == "assign" and ev.get("lhs", [None])[:1] == ["var"] and ev.get("rhs", [None])[:1] == ["bool"]:
-            return ("sym", ("setvar", ev["lhs"][1], ev["rhs"][1]))
-        if k != "call":
-            return None
-        n = qe(ev)
-        if n == "trompeloeil::sequence_matcher::print_expectation":
-            return ("sym", "print")
-        if n == A["unlink"] or n == "trompeloeil::sequence_matcher::retire":
-            return ("sym", "unlink")
-        if n in (A["send_report"], A["send"]):
-            return ("sym", "send_" + lib.severity_of(ev["args"][0], {}))
-        if n == "trompeloeil::list::empty":
-            return ("skip",)
-        return None
-
-    def edge(fn, cond):
-        if lib.tree_name(cond) == "trompeloeil::list::empty":
-            return "empty"
-        if isinstance(cond, list) and cond[:1] == ["var"]:
-            return "var:%d" % cond[1]
-        return None
-
-    def delta(q, sym):
-        iters, st, sends, bad, vars_ = q
-        r = delta0((iters, st, sends, bad), sym, dict(vars_))
-        if r == "DEAD":
-            return r
-        (a, b, c, d), vs = r
-        return (a, b, c, d, frozenset(vs.items()))
-
-    def delta0(q, sym, vs):
-        iters, st, sends, bad = q
-        if isinstance(sym, tuple) and sym[0] == "setvar":
-            vs[sym[1]] = sym[2]
-            return q, vs
-        if isinstance(sym, tuple) and sym[0] == "cond" and sym[1].startswith("var:"):
-            v = int(sym[1][4:])
-            if v in vs and vs[v] != sym[2]:
-                return "DEAD"
-            vs[v] = sym[2]
-            return q, vs
-        r = delta1(q, sym)
-        return (q if r is None else r), vs
-
-    def delta1(q, sym):
-        iters, st, sends, bad = q
-        if isinstance(sym, tuple) and sym[0] == "cond":
-            if st not in ("start", "unlinked"):
-                bad = bad or "an iteration ends without having listed and unlinked the front expectation"
-            if sym[2] is False:
-                return (1, "entered", sends, bad)
-            return (iters, "start" if st == "start" else "unlinked", sends, bad)
-        if sym == "begin":
-            return (iters, "begun" if st == "entered" else st, sends, bad)
-        if sym == "print":
-            if st != "begun":
-                bad = bad or "an expectation is listed that is not the current front of the pending list"
-            return (iters, "printed", sends, bad)
-        if sym == "unlink":
-            if st != "printed":
-                bad = bad or "an expectation is unlinked at sequence destruction without having been listed"
-            return (iters, "unlinked", sends, bad)
-        if sym == "send_nonfatal":
-            return (iters, st, min(sends + 1, 2), bad)
-        if sym in ("send_fatal", "send_?"):
-            return (iters, st, sends, bad or "sequence destruction reports with a severity other than non-fatal")
-        return None
-
+    """~sequence_type on pending lists of 0..3 abstract elements (rules/common.ListSim): every pending expectation is
+    listed once, in list order, and unlinked; exactly one non-fatal report is sent after the last one was listed iff
+    the list was not empty; nothing else is reported.  The destructor's CFG is interpreted over the abstract list,
+    so the loop may be spelled in any way (worklist over the front, do-while, iterator loop that advances before it
+    unlinks)."""
+    from rules.common import ListSim
     for fn in tu.need(A["dtor_sequence_type"]):
-        ex = Explorer(tu, classify, edge=edge, delta=delta)
-        ex._relevant = {fn.id}
-        exits, terms = ex.explore(fn, (0, "start", 0, None, frozenset()))
         bad = None
-        for (iters, st, sends, flag, _vars), tr in exits.items():
-            if flag:
-                bad = (flag, tr)
-            elif iters and sends != 1:
-                bad = ("destroying a sequence with pending expectations sends %d reports (must be exactly one)" % sends, tr)
-            elif not iters and sends:
-                bad = ("destroying an empty sequence sends a report", tr)
-        # no early exit from the loop
-        ls = cfg.loops(fn)
-        if bad is None and (len(ls) != 1 or ls[0]["exit_edges"]):
-            bad = ("the teardown loop can be left before the pending list is empty", None)
-        ctx.ob("C06.b", A["dtor_sequence_type"], bad is None, pattern=fn.pat, unit=tu.name,
-               detail="" if bad is None else bad[0],
-               witness=None if bad is None or bad[1] is None else {"path": fmt_trace(bad[1])})
+        try:
+            import itertools
+            cases = [(k, sat, opt) for k in (0, 1, 2) for sat in itertools.product((False, True), repeat=k)
+                     for opt in itertools.product((False, True), repeat=k)] + [(3, (False,) * 3, (False,) * 3)]
+            for k, sat, opt in cases:
+                sim = ListSim(k)
+
+                def pr(t, it, sim=sim):
+                    sim.log.append(("print", sim.elem_of(t, it)))
+                    return ("opaque", "os")
+
+                def send(t, it, sim=sim):
+                    a = t[3] if t[0] == "call" else t[4]
+                    sim.log.append(("send", lib.severity_of(a[0], {})))
+                    return None
+                # whether a pending expectation is satisfied / optional must not matter: all of them are listed
+                calls = sim.calls({"trompeloeil::sequence_matcher::print_expectation": pr,
+                                   A["send_report"]: send, A["send"]: send,
+                                   "trompeloeil::sequence_matcher::is_satisfied": lambda t, it, sim=sim, sat=sat: sat[sim.elem_of(t, it)],
+                                   "trompeloeil::sequence_matcher::is_optional": lambda t, it, sim=sim, opt=opt: opt[sim.elem_of(t, it)]})
+                o = Oracle(calls=calls, any_member=True, any_call=True, any_param=True)
+                res = Interp(fn, o).run(max_steps=600)
+                prints = [x[1] for x in sim.log if x[0] == "print"]
+                unl = [x[1] for x in sim.log if x[0] == "unlink"]
+                sends = [x[1] for x in sim.log if x[0] == "send"]
+                why = None
+                if prints != list(range(k)):
+                    why = "it lists %s" % (prints,)
+                elif sorted(unl) != list(range(k)) or sim.alive:
+                    why = "it unlinks %s and leaves %s linked" % (unl, sim.alive)
+                elif k == 0 and sends:
+                    why = "destroying an empty sequence sends a report"
+                elif k > 0 and sends != ["nonfatal"]:
+                    why = "it sends %s (must be exactly one non-fatal report)" % (sends,)
+                elif k > 0 and sim.log.index(("send", "nonfatal")) < max(i for i, x in enumerate(sim.log) if x[0] == "print"):
+                    why = "the report is sent before every pending expectation has been listed"
+                elif any(sim.log.index(("unlink", i)) < sim.log.index(("print", i)) for i in range(k)):
+                    why = "an expectation is unlinked before it has been listed"
+                if why and bad is None:
+                    bad = "with %d pending expectation(s) (0..%d in list order; satisfied %s, optional %s) %s" % (
+                        k, k - 1, list(sat), list(opt), why)
+            ctx.ob("C06.b", A["dtor_sequence_type"], bad is None, pattern=fn.pat, unit=tu.name,
+                   detail="" if bad is None else bad)
+        except Unknown as u:
+            # an interpretation that cannot continue because the code walks through an unlinked node is a verdict
+            if "after its element was unlinked" in str(u):
+                ctx.ob("C06.b", A["dtor_sequence_type"], False, pattern=fn.pat, unit=tu.name, detail=str(u))
+            else:
+                ctx.ob("C06.b", A["dtor_sequence_type"], None, pattern=fn.pat, unit=tu.name, detail="cannot interpret: %s" % u)
 
 
 def c06c(ctx, tu):
